@@ -13,6 +13,53 @@ NOTE_COMMON = ("Trusted: Coq 8.16.1 kernel (+vm_compute), no axioms (Print Assum
                "correspondence run only.")
 
 CHECKS = {
+    "C01": dict(
+        text="Theorem (Coq, every autocommit history of any length over any keys, collector/cleaner anywhere): the faithful model "
+             "of fs_db's version store answers exactly as a key-value map (C01_kv_refinement), with the map's laws in the "
+             "property's words (get after set / delete, value until next write, empty key and missing key change nothing, "
+             "GetKeys sorted, duplicate-free and exactly the readable keys). Tie: seeded histories through the real inline "
+             "client (all three write forms, both read forms, boundary content lengths, prefix-related and multi-byte keys) are "
+             "compared step by step with the extracted model and the extracted map machine.",
+        design="7/C01", technique="Coq refinement proof (model = abstract machine = key-value map) + differential correspondence run",
+        note="Contents are atomic values at this layer (bytes compared by length+SHA-256 in the run). Reopen is excluded from the "
+             "theorem (C05). " + NOTE_COMMON),
+    "C02": dict(
+        text="Theorem (Coq, induction over every sequential history of Begin/Set/Delete/Get/GetKeys/Commit/Rollback over any "
+             "number of open transactions of any levels plus autocommit, with the collector and cleaner at any position): the "
+             "faithful model (global sequence counter, per-transaction stores + all-store, two-phase commit with per-key "
+             "re-sequencing, tombstones, registry, cleaner queue) produces exactly the outputs of the abstract machine whose "
+             "read rules are the property's clauses (C02_reads_refine, via a 10-clause model invariant and a simulation "
+             "relation). Tie: seeded histories with up to 6 open transactions and probes of all readers are run through the "
+             "real client and compared step by step with the extracted model and abstract machine.",
+        design="7/C02", technique="Coq refinement proof by simulation + differential correspondence run",
+        note="Hypotheses of the theorem: no write through a non-open handle (C13, finding D7), no Reopen. Snapshot lookup is the "
+             "linear-scan specification justified by C18's theorems. " + NOTE_COMMON),
+    "C03": dict(
+        text="Theorems (Coq): on the abstract machine, Commit fails iff the transaction is RR/SER and a key it wrote had a value "
+             "committed since it began; RU/RC never conflict; a successful commit installs the last value of every written key "
+             "(deletions included) and changes no other key's committed value; rollback and failed commit keep every committed "
+             "value and leave no entry of the transaction; the model's two-phase commit simulates it (C03_commit_simulates) for "
+             "all sequential histories. Tie: conflict-biased seeded histories with autocommit probes after every Commit/Rollback.",
+        design="7/C03", technique="Coq proof on the abstract machine + refinement transfer + differential correspondence run",
+        note="Sequential commits only (concurrent commits are C07). " + NOTE_COMMON),
+    "C09": dict(
+        text="Theorems (Coq): for every sequential history the outputs of all non-collector operations equal those of the history "
+             "with every collection/drain removed (C09_gc_transparent); a collection pass and a drain keep the model related to "
+             "the same abstract state, so every later read of every reader is unchanged and every version a read may return "
+             "still has its content. Tie: base histories with the collector inserted at every position in turn, after every "
+             "step, and not at all; plus boundary corpus (a committed write drawing the number right after a Begin).",
+        design="7/C09", technique="Coq refinement proof (collector = identity of the abstract machine) + position-exhaustive correspondence run",
+        note="Collector invoked between operations (concurrent collection: C06/C08). " + NOTE_COMMON),
+    "C13": dict(
+        text="Theorems (Coq): the abstract machine rejects every operation through a non-open handle with ErrTxNotFound "
+             "(Rollback: no-op) and changes nothing; ended handles are not open; the model agrees on every history without a "
+             "late WRITE (C13_late_reads_commit_rollback_partial). The full statement is REFUTED for the faithful model "
+             "(C13_late_write_refuted: a Set through a committed transaction succeeds and a ReadUncommitted reader sees it) — "
+             "genuine defect D7, recorded in known_findings.json and reproduced on the real code on every run. Tie: histories "
+             "with operations through ended handles at all levels with observers; late-write histories are compared with the "
+             "model of the finding step by step so any other deviation is still reported.",
+        design="7/C13", technique="Coq proof (spec-level + refinement) with a machine-checked refutation witness + differential correspondence run",
+        note="Claimed with a known finding (D7). Unknown ids are only reachable over gRPC. " + NOTE_COMMON),
     "C18": dict(
         text="Theorems (Coq, unbounded): the binary search over the array mirror equals the linear-scan "
              "specification on every strictly increasing list; the collector loop removes exactly the versions with a "
